@@ -429,8 +429,21 @@ class EnergyFluxProfile(
             # scalar.
             return np.atleast_1d(self(E))[0]
 
+        def func_lnE(lnE):
+            # The integrand for the integration in ln(E): f(E) dE = f(E) E dlnE.
+            E = np.exp(lnE)
+            return np.atleast_1d(self(E))[0] * E
+
         for (i, (E1_i, E2_i)) in enumerate(zip(E1, E2)):
-            integral[i] = quad(func, E1_i, E2_i, full_output=True)[0]
+            if (E1_i > 0) and (E2_i > 0):
+                # Energy spectra span several orders of magnitude in energy and
+                # flux. Hence, integrate in ln(E) and require a relative
+                # (instead of quad's default absolute) accuracy.
+                integral[i] = quad(
+                    func_lnE, np.log(E1_i), np.log(E2_i),
+                    epsabs=0, epsrel=1e-10, limit=200, full_output=True)[0]
+            else:
+                integral[i] = quad(func, E1_i, E2_i, full_output=True)[0]
 
         return integral
 
